@@ -101,7 +101,8 @@ func quoteMode(in *bufio.Scanner, out *json.Encoder) error {
 		return err
 	}
 	defer os.RemoveAll(dir)
-	for _, n := range []string{"a", "aa", "b", "*", "?", "[", "~", "$a", "a b", "'", "x", "="} {
+	os.Mkdir(filepath.Join(dir, "a"), 0o700)
+	for _, n := range []string{"a/a", "a/*", "aa", "b", "*", "?", "[", "~", "$a", "a b", "'", "x", "=", "\\"} {
 		os.WriteFile(filepath.Join(dir, n), nil, 0o600)
 	}
 	if err := os.Chdir(dir); err != nil {
